@@ -18,7 +18,7 @@ Step ==
   /\ l <= Len(Trace) /\ l' = l + 1 /\ hi' = l /\ UNCHANGED <<sup, mrg, recent>>
   /\ net' = (IF Ev.ev = "Reset" THEN {} ELSE net) \cup Sent(Ev)
   /\ \/ Ev.ev = "Reset" /\ nn' = Ev.n /\ sv' = [n \in Nodes |-> Zero] /\ upd' = [n \in Nodes |-> {}] /\ dup' = FALSE
-     \/ Ev.ev = "pub" /\ sv' = [sv EXCEPT ![Ev.node][Ev.node] = @ + 1] /\ UNCHANGED <<upd, dup, nn>>
+     \/ Ev.ev = "pub" /\ sv' = [sv EXCEPT ![Ev.node][Ev.node] = Ev.to] /\ UNCHANGED <<upd, dup, nn>>    \* IncrSeqNo, or a jump (SetSeqNo)
      \/ /\ Ev.ev = "dlv" /\ UNCHANGED nn
         /\ sv' = [sv EXCEPT ![Ev.dst] = Merged(Ev.dst, Vec(Ev.v))]
         /\ upd' = [upd EXCEPT ![Ev.dst] = @ \cup News(Ev.dst, Vec(Ev.v))]
@@ -40,6 +40,8 @@ I_C19svs_vec == Seen => \A n \in Real : Vec(Last.sv[n]) = sv[n]
 I_C19svs_send == Seen => \A s \in Sent(Last) : s.v = sv[s.src]
 \* a publication is announced at once
 I_C19svs_pub == (Seen /\ Last.ev = "pub") => \E s \in Sent(Last) : s.src = Last.node
+\* a publication only ever raises the publisher's own sequence number
+T_C19svs_pubup == [][(On /\ Ev.ev = "pub") => Ev.to > sv[Ev.node][Ev.node]]_tvars
 \* left alone for longer than the periodic timeout (30 s +- 10%) every node repeats its vector
 I_C19svs_periodic == (Seen /\ Last.ev = "adv" /\ Last.dt >= 34000) => \A n \in Real : \E s \in Sent(Last) : s.src = n
 I_C19svs_probe == (Seen /\ Last.ev = "adv" /\ "probe" \in DOMAIN Last) =>
